@@ -68,6 +68,11 @@ pub fn lone_cr_next_to_break(src: &str) -> bool {
 fn lexer_agrees(ast: &full_moon::ast::Ast, src: &str, syn: Syntax) -> bool {
     use full_moon::node::Node;
     let Ok(toks) = lex::lex(src, syn) else { return false };
+    // a quoted string with a malformed `\x` / `\u` escape has no value in the dialects that know these escapes (and
+    // another one in Lua 5.1): no claim about such input
+    if toks.iter().any(|t| matches!(t.kind, Kind::Quoted(_)) && lex::has_malformed_escape(&src.as_bytes()[t.start + 1..t.end - 1])) {
+        return false;
+    }
     let mine: Vec<(usize, usize)> = toks.iter().filter(|t| !t.kind.is_trivia()).map(|t| (t.start, t.end)).collect();
     let mut theirs: Vec<(usize, usize)> = Vec::with_capacity(mine.len());
     for t in ast.nodes().tokens() {
@@ -778,6 +783,13 @@ pub fn c04(case: &Case, out: &Outcome) -> Verdict {
             };
             if a.len() != b.len() {
                 return Verdict::Fail(format!("{} literals in the input, {} in the output", a.len(), b.len()));
+            }
+            // a malformed `\x` / `\u` escape has no value in the dialects that know these escapes (and another one in
+            // Lua 5.1): such input is not judged
+            if let Ok(toks) = lex_ok(&case.source, syn) {
+                if toks.iter().any(|t| matches!(t.kind, Kind::Quoted(_)) && lex::has_malformed_escape(&case.source.as_bytes()[t.start + 1..t.end - 1])) {
+                    return Verdict::Skip("a quoted string holds a malformed \\x or \\u escape");
+                }
             }
             let mut respelled = false;
             for (i, (x, y)) in a.iter().zip(b.iter()).enumerate() {
